@@ -284,6 +284,30 @@ impl ReceiverOutput {
     }
 }
 
+/// Verification hooks: read / build the `pub(crate)` base-OT outputs.
+#[cfg(sl_crypto_verif)]
+impl SenderOutput {
+    pub fn verif_new(keys: &[([u8; LAMBDA_C_BYTES], [u8; LAMBDA_C_BYTES])]) -> Self {
+        Self {
+            otp_enc_keys: array::from_fn(|i| OneTimePadEncryptionKeys {
+                rho_0: keys[i].0,
+                rho_1: keys[i].1,
+            }),
+        }
+    }
+
+    pub fn verif_keys(&self) -> Vec<([u8; LAMBDA_C_BYTES], [u8; LAMBDA_C_BYTES])> {
+        self.otp_enc_keys.iter().map(|k| (k.rho_0, k.rho_1)).collect()
+    }
+}
+
+#[cfg(sl_crypto_verif)]
+impl ReceiverOutput {
+    pub fn verif_parts(&self) -> ([u8; LAMBDA_C_BYTES], Vec<[u8; LAMBDA_C_BYTES]>) {
+        (self.choice_bits, self.otp_dec_keys.to_vec())
+    }
+}
+
 #[cfg(test)]
 mod test {
     use super::*;
